@@ -150,11 +150,16 @@ class Gen:
     def rscalar(self, cv):
         return self.rng.randrange(1, cv.q)
 
-    def bits(self, nbits, quick_n):
-        """positions of single-bit alterations: all in the thorough tier, a sample (always incl. the
+    def bits(self, cv, nbits, quick_n):
+        """positions of single-bit alterations: all in the thorough tier on l = 128 (a dense sample on l = 192, 256:
+        the code is generic in l and the model costs 0.1-0.3 s per verification there), a sample (always incl. the
         first and the last bit) in the quick tier"""
-        if self.thorough or nbits <= quick_n:
+        if (self.thorough and cv.ci == 0) or nbits <= quick_n:
             return list(range(nbits))
+        if self.thorough:
+            quick_n = max(quick_n, 96)
+            if nbits <= quick_n:
+                return list(range(nbits))
         s = {0, nbits - 1}
         while len(s) < quick_n:
             s.add(self.rng.randrange(nbits))
@@ -377,13 +382,13 @@ class Gen:
                 return self.sig_cases(cv, m, sig, add, 1)
             finally:
                 self.thorough = True
-        for i in self.bits(12 * no, self.w(cv, 24, 10, 8)):
+        for i in self.bits(cv, 12 * no, self.w(cv, 24, 10, 8)):
             v(oid, H, flip(sig, i), Q, "bit:sig")
-        for i in self.bits(8 * no, self.w(cv, 12, 5, 4)):
+        for i in self.bits(cv, 8 * no, self.w(cv, 12, 5, 4)):
             v(oid, flip(H, i), sig, Q, "bit:hash")
-        for i in self.bits(16 * no, self.w(cv, 12, 6, 6)):
+        for i in self.bits(cv, 16 * no, self.w(cv, 12, 6, 6)):
             v(oid, H, sig, flip(Q, i), "bit:pub")
-        for i in self.bits(8 * len(oid), self.w(cv, 8, 4, 3)):
+        for i in self.bits(cv, 8 * len(oid), self.w(cv, 8, 4, 3)):
             v(flip(oid, i), H, sig, Q, "bit:oid")
         for lab, Qb in self.pubs(cv, Q)[1:]:
             v(oid, H, sig, Qb, "pub:" + lab)
@@ -424,7 +429,7 @@ class Gen:
             if 0 < cut <= len(tok):
                 u(tok[:-cut], hdr, d, "truncated")
         u(tok + b"\x00", hdr, d, "extended")
-        for i in self.bits(8 * len(tok), self.w(cv, 10, 4, 3)) if not self.thorough else self.bits(8 * len(tok), 0) if m.get("first") else sorted(self.rng.sample(range(8 * len(tok)), 24)):
+        for i in self.bits(cv, 8 * len(tok), self.w(cv, 10, 4, 3)) if not self.thorough else self.bits(cv, 8 * len(tok), 0) if m.get("first") else sorted(self.rng.sample(range(8 * len(tok)), 24)):
             u(flip(tok, i), hdr, d, "bit:token")
         x = int.from_bytes(tok[:no], "little")
         for lab, xx in [("x=p", cv.p), ("x+p", x + cv.p), ("x=max", cv.W - 1), ("x=0", 0)]:
@@ -499,9 +504,9 @@ class Gen:
             full = n == 1
             if self.thorough and not full:
                 pass
-            for i in self.bits(12 * no, self.w(cv, 10, 4, 3) if full else 1) if not (self.thorough and not full) else [self.rng.randrange(12 * no) for _ in range(6)]:
+            for i in self.bits(cv, 12 * no, self.w(cv, 10, 4, 3) if full else 1) if not (self.thorough and not full) else [self.rng.randrange(12 * no) for _ in range(6)]:
                 v(oid, idH, H, flip(isig, i), R, Q, "bit:idsig")
-            nb = lambda tot: (self.bits(tot, self.w(cv, 5, 2, 2) if full else 1) if not (self.thorough and not full)
+            nb = lambda tot: (self.bits(cv, tot, self.w(cv, 5, 2, 2) if full else 1) if not (self.thorough and not full)
                               else [self.rng.randrange(tot) for _ in range(4)])
             for i in nb(8 * no):
                 v(oid, idH, flip(H, i), isig, R, Q, "bit:hash")
